@@ -153,7 +153,13 @@ def run(ctx):
                                 initial_version=default,
                                 handle_exception=lambda e, i: log.append(e),
                                 handle_exit=lambda: log.append('exit'))
-            eff_default = conn.default_proto_version
+            # the default, when none is configured, is the chronologically latest allowed version
+            eff_default = default if default is not None else max(set(allowed), key=rank.get)
+            if conn.default_proto_version != eff_default or conn.context.protocol_version != max(set(allowed), key=rank.get):
+                ctx.violation('constructed with allowed=%r initial=%r: default=%r context=%r (latest allowed is %r)' % (
+                    sorted(set(allowed)), default, conn.default_proto_version, conn.context.protocol_version,
+                    max(set(allowed), key=rank.get)), {'allowed': allowed, 'default': default},
+                    key={'ctor-default': sorted(set(allowed)), 'initial': default})
             try:
                 conn.connect()
                 net.run_threads()
@@ -285,6 +291,10 @@ def run(ctx):
             finally:
                 builtins.print = real_print
             srv = cfg['servers'][0]
+            latest_sup = max(SUP, key=rank.get)
+            if srv.handshake is None or srv.handshake['protocol'] != latest_sup or srv.handshake['next'] != 1:
+                ctx.violation('plain status query handshake %r (latest supported protocol is %d, next state 1)'
+                              % (srv.handshake, latest_sup), {'mode': mode}, key={'kind': 'status-handshake'})
             sframes = [(f[1], f[2]) for f in srv.frames if f[0] == 'status']
             pings = [f for f in sframes if f[0] == 1]
             st_calls = [c for c in calls if c[0] == 'status'] + \
